@@ -316,10 +316,23 @@ def execute(scn, L):
     cuts = scn.get('cuts')
 
     if cuts:
-        if cuts.get('mode') == 'all':
+        if cuts.get('mode') == 'all' and len(intact) <= 4000:
             ks = range(0, len(intact) + 1)
             out.case_weight = max(0, len(intact) - 1)
             out.probe('files_swept_completely')
+        elif cuts.get('mode') == 'all':
+            # a very large file: every cut around every section boundary
+            # and a regular grid in between (not a complete sweep)
+            ks = set(range(0, len(intact) + 1, max(1, len(intact) // 400)))
+
+            for hs, he, ce in spans:
+                for b in (hs, he, ce):
+                    ks.update(range(max(0, b - 3), min(len(intact), b + 3)
+                                    + 1))
+
+            ks = sorted(ks)
+            out.case_weight = len([k for k in ks if 0 < k < len(intact)])
+            out.probe('large_file_cut_grid')
         else:
             ks = [int(k) for k in cuts.get('at', ()) if
                   0 <= int(k) <= len(intact)]
